@@ -21,12 +21,17 @@ from pyoak.origin import (SOURCE_OPTIMIZED_SERIALIZATION_KEY, NO_ORIGIN, CodeOri
 from pyoak.serialize import SerializationOption
 
 from run import Case, VERIF
+from props.c04_origin_cases import origin_cases
 from regmachine import Machine
 import zoo
 
 PROPERTY = "C04"
-LEAN_MODULE = "PyOak.Props.C04"
-THEOREMS = ["PyOak.C04." + t for t in ['deser_reuse', 'deser_reuse_all', 'deserKids_reuse', 'deser_fresh_ids', 'deser_root_created', 'Realizes.registered', 'deser_shared', 'deser_shared_later', 'deser_persist', 'deser_never_overwrites_live']]
+LEAN_MODULE = "PyOak.Props.C04All"
+THEOREMS = ["PyOak.C04." + t for t in ['deser_reuse', 'deser_reuse_all', 'deserKids_reuse', 'deser_fresh_ids', 'deser_root_created', 'Realizes.registered', 'deser_shared', 'deser_shared_later', 'deser_persist', 'deser_never_overwrites_live']] + ["PyOak.C04O." + t for t in [
+    'source_roundtrip', 'source_index_same_registry', 'load_roundtrip', 'source_index_roundtrip', 'position_roundtrip',
+    'origin_roundtrip', 'origin_roundtrip_any_registry', 'origin_index_roundtrip', 'singletons_roundtrip',
+    'load_needs_empty_registry', 'load_needs_order', 'index_needs_load', 'index_needs_registered',
+    'beq_refl', 'beq_symm', 'beq_trans']]
 RULE = ("zoo trees (all property kinds incl. unicode strings, 64-bit ints, floats, enums, paths, literals, tuples, "
         "optionals; every origin kind incl. XML, generated, multi-origins over several sources, No* singletons; shared "
         "subtrees; ids with collision suffixes because registered twins exist outside the tree) x 4 formats x "
@@ -257,3 +262,5 @@ def cases(rng: random.Random, tier: str):
             line, real = m.request(), m.observation()
             desc = f"ID_DIGEST_SIZE={size}: " + "; ".join(m.descr)
         yield Case("history-model", line, real, True, desc, sig="roundtrip|history-model")
+    # origin / source / position codec and the source registry against the Lean model (Model/OriginCodec.lean)
+    yield from origin_cases(rng, tier)
